@@ -224,6 +224,73 @@ def gen(quick: bool) -> str:
     return "\n".join(out)
 
 
+JSON_MOD = "local p = {}\nfunction p.f(frame)\n  local d = mw.loadJsonData('Module:vfdata.json')\n  d.n = (d.n or 0) + 1\n  local e = mw.loadData('Module:vfdata')\n  return tostring(d.n) .. '/' .. tostring(e.k)\nend\nreturn p"
+
+
+def lua_data_caches(rep: C.Report) -> None:
+    """Ob5: every table of the sandbox bootstrap that memoises *page data* (values returned to modules: mw.loadData /
+    mw.loadJsonData) is emptied by the function start_page calls.  Decided over the current Lua source as a finite z3 query:
+    caches = top-level `local <name> = {}` tables that some function fills with `<name>[key] = <value>` and returns entries of;
+    cleared = tables reassigned in the clear function (the second element of the table the file returns); the compiled-chunk
+    cache (functions, not data) is exempt.  sat -> replay on the real sandbox: a module mutates loaded data on page 1, page 2 reads it."""
+    import re
+
+    ob = rep.add(C.Ob("Ob5 per-page Lua data caches are emptied by start_page", "z3 over facts read from the current Lua source (finite) + replay on the real sandbox", ["lua/_sandbox_phase1.lua: loaddata caches, _clear_loadData_cache"], "all top-level cache tables of the bootstrap file"))
+    try:
+        src = open(os.path.join(C.SRC, "lua", "_sandbox_phase1.lua")).read()
+        tables = set(re.findall(r"^local\s+([A-Za-z_][A-Za-z0-9_]*)\s*=\s*\{\s*\}", src, flags=re.M))
+        written = {t for t in tables if re.search(r"\b" + re.escape(t) + r"\[[^\]]+\]\s*=\s*[A-Za-z_]", src)}
+        returned = {t for t in written if re.search(r"return\s+" + re.escape(t) + r"\[", src)}
+        mret = re.search(r"^return\s*\{\s*([A-Za-z_][A-Za-z0-9_]*)\s*,\s*([A-Za-z_][A-Za-z0-9_]*)\s*\}", src, flags=re.M)
+        if not mret:
+            ob.verdict, ob.detail = C.NOT_ENCODABLE, "the bootstrap file's return table (loader setter, cache clearer) was not found"
+            return
+        clear_fn = mret.group(2)
+        mbody = re.search(r"function\s+" + re.escape(clear_fn) + r"\s*\(\)(.*?)^end", src, flags=re.S | re.M)
+        cleared = set(re.findall(r"([A-Za-z_][A-Za-z0-9_]*)\s*=\s*\{\s*\}", mbody.group(1))) if mbody else set()
+        # chunk cache: holds compiled functions (setfenv'ed per use), not page data
+        code_caches = {t for t in written if re.search(r"setfenv\(\s*[A-Za-z_]+\s*,", src) and re.search(r"local\s+[A-Za-z_]+\s*=\s*" + re.escape(t) + r"\[", src)}
+        data_caches = returned - code_caches
+        names = sorted(tables)
+        if not data_caches:
+            ob.verdict, ob.detail = C.NOT_ENCODABLE, f"no data cache recognised among {names}"
+            return
+        t = z3.Int("t")
+        s = z3.Solver()
+        s.add(t >= 0, t < len(names))
+        s.add(z3.Or(*[t == names.index(x) for x in sorted(data_caches)]))
+        s.add(z3.And(*[t != names.index(x) for x in sorted(cleared) if x in names]))
+        r = str(s.check())
+        ob.queries = ob.paths = ob.conditions = 1
+        ob.samples.append({"data_caches": sorted(data_caches), "cleared_by_" + clear_fn: sorted(cleared), "code_caches": sorted(code_caches)})
+        if r == "unsat":
+            ob.verdict = C.DISCHARGED
+            ob.confirmed_conditions = 1
+            return
+        leak = names[s.model()[t].as_long()]
+        from vf.wtpfix import new_ctx, close
+
+        w = new_ctx(modules={"vfj": JSON_MOD, "vfdata": "return {k = 'K'}"})
+        w.add_page("Module:vfdata.json", 828, '{"n": 0}', model="json")
+        w.db_conn.commit()
+        outs = []
+        for title in ("P1", "P2", "P3"):
+            w.start_page(title)
+            try:
+                outs.append(w.expand("{{#invoke:vfj|f}}"))
+            except Exception as e:  # noqa: BLE001
+                outs.append(f"EXC {type(e).__name__}")
+        close(w)
+        ob.samples.append({"z3_witness_table": leak, "replay_outputs_per_page": outs})
+        if len(set(outs)) > 1:
+            v = rep.violation("three pages on one context, each expand('{{#invoke:vfj|f}}') (module increments a field of mw.loadJsonData's table)", f"results per page {outs}: data loaded and modified on one page is visible on the next (cache table {leak!r} is not emptied by start_page)", {"table": leak})
+            ob.verdict = C.VIOLATED if v.known is None else C.KNOWN
+        else:
+            ob.detail = f"cache table {leak!r} is not reset by {clear_fn}, but the replay gives identical results on every page -> inconclusive"
+    except Exception as e:  # noqa: BLE001
+        ob.detail += f"{type(e).__name__}: {e}"
+
+
 def run(rep: C.Report) -> None:
     quick = C.tier() == "quick"
     rep.explanation = (
@@ -256,6 +323,7 @@ def run(rep: C.Report) -> None:
     )
     alias_check(rep)
     lua_stack_balance(rep)
+    lua_data_caches(rep)
 
 
 def replay(r: dict) -> int:
